@@ -81,6 +81,15 @@ def edge_programs() -> Iterator[Dict[str, Any]]:
     yield P("set_cond", [ybool("C"), y, Cfg("X", "int", prompt="x", defaults=[(L("3"), None)])], {"C": ["y", "n"], "Y": ["y"]})
     y = ybool(); y.wsets.append(("X", L("7"), S("C")))
     yield P("wset_cond", [ybool("C"), y, Cfg("X", "int", prompt="x", defaults=[(L("3"), None)])], {"C": ["y", "n"], "Y": ["y"]})
+    # targets that have NOTHING of their own but the dependency (no prompt / default / range: the dependency reaches the
+    # option only through `set default` / `set` / imply evaluating direct_dep)
+    for t, v in (("int", "7"), ("string", '"w"'), ("hex", "0x7")):
+        y = ybool(); y.wsets.append(("X", L(v), None))
+        yield P(f"wset_directdep_bare_{t}", [ybool("D"), y, Cfg("X", t, depends=[S("D")]), Cfg("Z", t, prompt="z", defaults=[(S("X"), None)])], {"D": ["n", "y"], "Y": ["y"]})
+        y = ybool(); y.sets.append(("X", L(v), None))
+        yield P(f"set_directdep_bare_{t}", [ybool("D"), y, Cfg("X", t, depends=[S("D")]), Cfg("Z", t, prompt="z", defaults=[(S("X"), None)])], {"D": ["n", "y"], "Y": ["y"]})
+    y = ybool(); y.implies.append(("X", None))
+    yield P("imply_directdep_bare", [ybool("D"), y, Cfg("X", "bool", depends=[S("D")]), Cfg("Z", "bool", prompt="z", defaults=[(S("X"), None)])], {"D": ["n", "y"], "Y": ["y"]})
     y = ybool(); y.wsets.append(("X", L("7"), None))
     yield P("wset_directdep", [ybool("D"), y, Cfg("X", "int", prompt="x", depends=[S("D")], defaults=[(L("3"), None)])], {"D": ["y", "n"], "Y": ["y"]})
     # value symbol of set / set default
